@@ -44,6 +44,13 @@ pub fn run_source(src: &str, dialects: &[&str]) -> Vec<J> {
     res
 }
 
+/// CPU time this process has run so far, in microseconds (Linux schedstat; insensitive to how loaded the machine is,
+/// unlike wall-clock time); None where /proc is not available
+fn cpu_us() -> Option<u64> {
+    let s = std::fs::read_to_string("/proc/self/schedstat").ok()?;
+    s.split_whitespace().next()?.parse::<u64>().ok().map(|ns| ns / 1000)
+}
+
 /// args: <inputs.ndjson {"id","family","kind":"src"|"rqjson"|"pljson","text"}> <out.ndjson> [dialects comma separated]
 pub fn main(args: &[String]) -> i32 {
     let mut out = std::io::BufWriter::new(std::fs::File::create(&args[1]).expect("out"));
@@ -56,6 +63,7 @@ pub fn main(args: &[String]) -> i32 {
         let c: J = serde_json::from_str(line).expect("json");
         let text = c["text"].as_str().unwrap_or("");
         let t0 = Instant::now();
+        let c0 = cpu_us();
         // progress marker on stderr so that the parent can name the input if this process dies
         eprintln!("@{}", c["id"].as_str().unwrap_or("?"));
         let results = match c["kind"].as_str().unwrap_or("src") {
@@ -83,7 +91,10 @@ pub fn main(args: &[String]) -> i32 {
             }
             _ => run_source(text, &dialects),
         };
-        let ms = t0.elapsed().as_micros() as u64;
+        let ms = match (c0, cpu_us()) {
+            (Some(a), Some(b)) if b >= a => b - a,
+            _ => t0.elapsed().as_micros() as u64,
+        };
         writeln!(out, "{}", json!({"event":"Input","id":c["id"],"family":c["family"],"n":c["n"].as_i64().unwrap_or(0),"results":results,"us":ms})).unwrap();
         let _ = out.flush();
     }
